@@ -606,8 +606,22 @@ func c21Exec(c c21Case, x *pbt.Ctx) error {
 			fin := op.Fin % len(w.blocks)
 			finHash := w.hashes[fin]
 			best := w.blocks[b].BlockHeader
+			// the index entries about to be rewritten are read first (so that they sit in the cache, as
+			// they do in a node that answers sync requests) and again afterwards
+			var heights []uint64
+			for h := uint64(0); h <= 3; h++ {
+				heights = append(heights, h)
+				c21Read(store, w, c21Op{Op: "mainhash", H: h})
+			}
 			if err := store.SaveChainStatus(&best, main, view, cv, w.blocks[fin].Height, &finHash); err != nil {
 				return fmt.Errorf("op %d SaveChainStatus: unexpected error %v", i, err)
+			}
+			for _, h := range heights {
+				rop := c21Op{Op: "mainhash", H: h}
+				if got, fresh := c21Read(store, w, rop), c21Read(database.NewStore(db), w, rop); got != fresh {
+					return fmt.Errorf("op %d SaveChainStatus with %d main-chain headers: afterwards GetMainChainHash(%d) on the long-lived store and on a fresh store over the same DB disagree\n  long-lived: %s\n  fresh:      %s\n  history:\n    %s",
+						i, len(main), h, got, fresh, trace(i))
+				}
 			}
 		case "savecheckpoints":
 			x.Class("op:savecheckpoints")
